@@ -99,7 +99,7 @@ def run(tier, seed):
     with open(trace) as f:
         rep.sample({"leg": "random", "events": [json.loads(next(f)) for _ in range(4)]})
     os.remove(trace)
-    rep.assumptions += ["element type int (the template is type-agnostic)", "grid sizes <= 8 per axis in recorded histories",
+    rep.assumptions += ["element types int and std::string (a type with a real move constructor), cells reached directly and through Grid<T,DIM>&", "grid sizes <= 8 per axis in recorded histories",
                         "TLC bounds as listed under coverage.constants"]
     return rep.finish()
 
